@@ -139,6 +139,25 @@ func genC16(t *rapid.T) c16Case {
 	} else {
 		c.Secret = drawURLString(t, "sec", true)
 	}
+	// relations BETWEEN the strings (independent draws essentially never produce them)
+	switch rapid.IntRange(0, 11).Draw(t, "relation") {
+	case 0:
+		c.Account = c.Issuer + ":" + c.Account // account qualified with its own issuer
+	case 1:
+		c.Account = c.Issuer + ":"
+	case 2:
+		c.Account = c.Issuer
+	case 3:
+		c.Secret = c.Issuer
+	case 4:
+		c.Account = c.Account + ":" + c.Issuer
+	case 5:
+		c.Secret = c.Account
+	case 6:
+		c.Account = "issuer=" + c.Issuer + "&secret=" + c.Secret // looks like the query part
+	case 7:
+		c.Issuer = "totp/" + c.Issuer // looks like type + label
+	}
 	if rapid.Bool().Draw(t, "digitsK") {
 		c.Digits = rapid.SampledFrom([]int{0, 6, 8, 10, 255, 1}).Draw(t, "digitsB")
 	} else {
